@@ -18,6 +18,7 @@ import (
 	"fmt"
 	"io"
 	"os"
+	"os/exec"
 	"runtime/debug"
 	"sort"
 	"strings"
@@ -145,6 +146,8 @@ func doReplay(args []string) {
 	j := fs.Int("j", 8, "worker goroutines")
 	out := fs.String("out", "", "summary file")
 	tlclog := fs.String("tlclog", "", "file receiving the non-data lines of TLC's output")
+	procs := fs.Int("procs", 1, "for families that touch package-level options (serial): number of child processes the lines are spread over")
+	child := fs.Bool("child", false, "internal: child process of -procs (reads raw lines on stdin)")
 	if len(args) < 1 {
 		fmt.Fprintln(os.Stderr, "usage: mxjconf replay <family> ...")
 		os.Exit(2)
@@ -174,6 +177,11 @@ func doReplay(args []string) {
 	n := *j
 	if f.serial {
 		n = 1
+	}
+	_ = child
+	if f.serial && *procs > 1 && !*child {
+		replayMultiProc(name, *procs, *out, logw)
+		return
 	}
 	ch := make(chan []byte, 256)
 	var wg sync.WaitGroup
@@ -220,6 +228,100 @@ func doReplay(args []string) {
 	writeSummary(a, *out)
 	if a.Fatal != "" {
 		fmt.Fprintln(os.Stderr, "mxjconf:", a.Fatal)
+		os.Exit(2)
+	}
+}
+
+// replayMultiProc spreads the data lines over child processes (each with its own copy of the
+// package-level option registers) and merges their summaries.
+func replayMultiProc(name string, procs int, out string, logw io.Writer) {
+	type kid struct {
+		cmd  *exec.Cmd
+		in   io.WriteCloser
+		outf string
+	}
+	kids := make([]*kid, procs)
+	for i := range kids {
+		tf, err := os.CreateTemp("", "mxjconf-child-*.json")
+		if err != nil {
+			fmt.Fprintln(os.Stderr, err)
+			os.Exit(2)
+		}
+		tf.Close()
+		c := exec.Command(os.Args[0], "replay", name, "-child", "-out", tf.Name())
+		c.Stderr = os.Stderr
+		in, err := c.StdinPipe()
+		if err != nil {
+			fmt.Fprintln(os.Stderr, err)
+			os.Exit(2)
+		}
+		if err := c.Start(); err != nil {
+			fmt.Fprintln(os.Stderr, err)
+			os.Exit(2)
+		}
+		kids[i] = &kid{c, in, tf.Name()}
+	}
+	rd := bufio.NewReaderSize(os.Stdin, 1<<20)
+	writers := make([]*bufio.Writer, procs)
+	for i, k := range kids {
+		writers[i] = bufio.NewWriterSize(k.in, 1<<20)
+	}
+	ln := 0
+	for {
+		line, err := rd.ReadBytes('\n')
+		if len(line) > 0 {
+			if line[0] == '"' && len(line) > 2 && line[1] == '{' {
+				writers[ln%procs].Write(line)
+				ln++
+			} else {
+				logw.Write(line)
+			}
+		}
+		if err != nil {
+			break
+		}
+	}
+	total := newAcc(name)
+	total.Rule = families[name].rule
+	for i, k := range kids {
+		writers[i].Flush()
+		k.in.Close()
+		werr := k.cmd.Wait()
+		b, rerr := os.ReadFile(k.outf)
+		os.Remove(k.outf)
+		var a Acc
+		if rerr != nil || json.Unmarshal(b, &a) != nil {
+			total.Fatal = fmt.Sprintf("child %d produced no summary (%v)", i, werr)
+			continue
+		}
+		total.Lines += a.Lines
+		total.Cases += a.Cases
+		total.Nontrivial += a.Nontrivial
+		total.MisCount += a.MisCount
+		for s, n := range a.SigCounts {
+			total.SigCounts[s] += n
+		}
+		for _, m := range a.Mismatches {
+			if total.perSig[m.Sig] < keepPerSig && len(total.Mismatches) < 200 {
+				total.perSig[m.Sig]++
+				total.Mismatches = append(total.Mismatches, m)
+			}
+		}
+		for _, smp := range a.Samples {
+			if len(total.Samples) < 4 {
+				total.Samples = append(total.Samples, smp)
+			}
+		}
+		for k2, v := range a.Extra {
+			total.Extra[k2] += v
+		}
+		if a.Fatal != "" {
+			total.Fatal = a.Fatal
+		}
+	}
+	writeSummary(total, out)
+	if total.Fatal != "" {
+		fmt.Fprintln(os.Stderr, "mxjconf:", total.Fatal)
 		os.Exit(2)
 	}
 }
